@@ -75,7 +75,11 @@ pub fn serve(root: &Path) -> Result<(), Box<dyn std::error::Error>> {
         match req {
             Request::Hello { .. } => write_frame(&mut w, &Response::Hello { version: VERSION })?,
             Request::List => {
-                let fps = discover_local_fingerprints(root).unwrap_or_default();
+                // Walk under the commit lock: the listing must be one consistent snapshot,
+                // not a mixture of the tree before and after a concurrent commit.
+                let fps = with_commit_lock(&lockdir, || {
+                    discover_local_fingerprints(root).unwrap_or_default()
+                })?;
                 let map = fps
                     .into_iter()
                     .filter(|(p, _)| !p.starts_with(".copia"))
